@@ -73,12 +73,15 @@ structure ScalarInfo where
   typed : Option ScalarForm
 deriving Repr, Inhabited
 
-/-- magnitude of a literal value (what the `num` atom denotes) -/
-def Val.neg (v : Val) : Val := Val.mul (.i (-1)) v
+/-- Python's unary minus on a value -/
+def negate : Val → Val
+  | .i n => .i (-n)
+  | .q r => .q (-r)
+  | v => v
 
-/-- `_constant(value)` -/
+/-- `_constant(value)`: a negative constant is a unary minus applied to its magnitude -/
 def constantOf (f : ScalarForm) (v : Val) : PyExpr :=
-  if !f.isBool && f.negative then .neg (.num f.text (Val.neg v)) else .num f.text v
+  if !f.isBool && f.negative then .neg (.num f.text (negate v)) else .num f.text v
 
 /-- `_rec_ary_or_constant(e)` for a scalar `e` of value `v` -/
 def emitScalar (f : ScalarForm) (v : Val) : PyExpr :=
@@ -295,134 +298,238 @@ def sliceExpr (s : NSlice) (dim : Nat) : PyIdx :=
   let r := resynthSlice s dim
   .slice (optInt r.1) (optInt r.2.1) (if r.2.2 = 1 then none else some (intConst r.2.2))
 
-/-! ## the traversal -/
+/-! ## what is emitted for one node: a PLAN
 
-def lookupMemo (m : List (Nat × String)) (i : Nat) : Option String :=
-  (m.find? (·.1 == i)).map (·.2)
+  Every node is handled in one of three ways:
+  * `input`  — a placeholder / data wrapper: its (given or generated) name becomes an argument;
+  * `pass c` — no statement: the node is its child `c` (a `NamedArray`; an index whose every entry
+               is a trivial slice);
+  * `stmt pre kids mk` — one assignment `lhs = mk names`, where `names` are the names of `kids`
+               (in the order the real method recurses into them); `pre` says whether the real method
+               draws `lhs` from the name generator BEFORE recursing (`map_roll`, `map_index_lambda`,
+               …) or after (`map_stack`, `map_concatenate`) — this decides the numbering of the
+               temporaries. -/
+
+inductive Plan where
+  | input (name : Option String)
+  | pass (c : Nat)
+  | stmt (pre : Bool) (kids : List Nat) (mk : List String → PyExpr)
+
+/-- an operand position of an emitted expression: a child (by node number) or a literal -/
+inductive Slot where
+  | kid (c : Nat)
+  | lit (e : PyExpr)
+
+def slotKids : List Slot → List Nat
+  | [] => []
+  | .kid c :: r => c :: slotKids r
+  | .lit _ :: r => slotKids r
+
+/-- the operand expressions, children replaced by their names (consumed in order) -/
+def fillSlots : List Slot → List String → List PyExpr
+  | [], _ => []
+  | .kid _ :: r, n :: ns => .name n :: fillSlots r ns
+  | .kid _ :: r, [] => .name "?" :: fillSlots r []
+  | .lit e :: r, ns => e :: fillSlots r ns
 
 def Operand.isArr' : Raise.Operand → Bool
   | .arr _ => true
   | .scalar _ => false
 
-/-- the operands of a high-level operation as Python expressions, recursing (through `rec`) into
-    array operands left to right -/
-def operandExprs (rec : Nat → St → Gen (String × St)) (binds : List (String × Nat))
-    (form : Nat → ScalarInfo → Gen ScalarForm) (lits : List ScalarInfo) :
-    Nat → List Raise.Operand → St → Gen (List PyExpr × St)
-  | _, [], st => .ok ([], st)
-  | k, o :: os, st =>
+/-- the operands of a high-level operation as slots (left to right) -/
+def slotsOf (binds : List (String × Nat)) (form : Nat → ScalarInfo → Gen ScalarForm)
+    (lits : List ScalarInfo) : Nat → List Raise.Operand → Gen (List Slot)
+  | _, [] => .ok []
+  | k, o :: os =>
     match o with
     | .arr n =>
       (match binds.find? (·.1 == n) with
-       | some (_, c) => do
-         let (nm, st) ← rec c st
-         let (r, st) ← operandExprs rec binds form lits (k + 1) os st
-         pure (PyExpr.name nm :: r, st)
+       | some (_, c) => (slotsOf binds form lits (k + 1) os).bind fun r => .ok (.kid c :: r)
        | none => .unmodelled "operand is not a binding")
     | .scalar c =>
       (match findLit lits c with
-       | some info => do
-         let f ← form k info
-         let (r, st) ← operandExprs rec binds form lits (k + 1) os st
-         pure (emitScalar f (Raise.litVal c) :: r, st)
+       | some info =>
+         (form k info).bind fun f =>
+           (slotsOf binds form lits (k + 1) os).bind fun r =>
+             .ok (.lit (emitScalar f (Raise.litVal c)) :: r)
        | none => .unmodelled "scalar operand without annotation")
 
-/-- `map_index_lambda` -/
-def emitIndexLambda (rec : Nat → St → Gen (String × St)) (g : PGraph) (dt : DType) (shape : Shape)
-    (e : SExpr) (binds : List (String × Nat)) (lits : List ScalarInfo) (st : St) :
-    Gen (String × St) := do
-  -- shapes of the bindings (static)
-  let bs ← binds.mapM fun (n, c) =>
-    (Gen.ofOption "symbolic binding shape" (staticShape (g.get c).shape)).bind fun s => pure (n, s)
-  match Raise.raise e shape bs with
-  | none => .refuse "UnknownIndexLambdaExpr"
-  | some hlo =>
-    let (lhs, st) ← st.fresh "_pt_tmp"
-    let asIs : Nat → ScalarInfo → Gen ScalarForm := fun _ i => .ok i.asIs
-    match hlo with
-    | .full c =>
-      let info ← Gen.ofOption "fill value without annotation" (findLit lits c)
-      let rhs :=
+/-- ascending insertion sort (the generator's `sorted(...)`) -/
+def insertBy {α : Type} (lt : α → α → Bool) (x : α) : List α → List α
+  | [] => [x]
+  | y :: r => if lt x y then x :: y :: r else y :: insertBy lt x r
+
+def sortBy {α : Type} (lt : α → α → Bool) : List α → List α
+  | [] => []
+  | x :: r => insertBy lt x (sortBy lt r)
+
+/-- the right-hand side for a classified index lambda -/
+def hloPlan (childShape : Nat → List (Option Nat)) (dt : DType) (shape : Shape)
+    (binds : List (String × Nat)) (lits : List ScalarInfo) : Raise.HLO → Gen Plan
+  | .full c =>
+    (Gen.ofOption "fill value without annotation" (findLit lits c)).bind fun info =>
+      let rhs : PyExpr :=
         if isOneLit c then
           .call (npf "ones") [shapeTuple shape] (if dt.isDefaultFloat then [] else [dtypeKw dt])
         else if isZeroLit c then
           .call (npf "zeros") [shapeTuple shape] (if dt.isDefaultFloat then [] else [dtypeKw dt])
         else
           .call (npf "full") [shapeTuple shape, emitScalar info.asIs (Raise.litVal c)] [dtypeKw dt]
-      pure (lhs, st.record lhs rhs)
-    | .binary op x1 x2 =>
-      (match arithOp op with
-       | some pop =>
-         let isDiv := op == .truediv
-         let form : Nat → ScalarInfo → Gen ScalarForm := fun k i =>
-           arithForm dt isDiv (if k = 0 then Operand.isArr' x2 else Operand.isArr' x1) i
-         do
-           let (xs, st) ← operandExprs rec binds form lits 0 [x1, x2] st
-           match xs with
-           | [a, b] => pure (lhs, st.record lhs (.bin pop a b))
-           | _ => .unmodelled "internal"
-       | none =>
-         let fname := match op with
-           | .cmp c => some (cmpCall c)
-           | .logicalOr => some "logical_or"
-           | .logicalAnd => some "logical_and"
-           | _ => none
-         match fname with
-         | some f => do
-           let (xs, st) ← operandExprs rec binds asIs lits 0 [x1, x2] st
-           pure (lhs, st.record lhs (.call (npf f) xs []))
-         | none => .refuse "NotImplementedError(binary_op)")
-    | .call f args => do
-      let (xs, st) ← operandExprs rec binds asIs lits 0 args st
-      pure (lhs, st.record lhs (.call (npf (c99NumpyName f)) xs []))
-    | .zerosLike _ =>
-      pure (lhs, st.record lhs
-        (.call (npf "zeros") [.tuple (shape.map fun d => .num (toString d) (.i (d : Nat)))] [dtypeKw dt]))
-    | .where_ c t el => do
-      let (xs, st) ← operandExprs rec binds asIs lits 0 [c, t, el] st
-      pure (lhs, st.record lhs (.call (npf "where") xs []))
-    | .broadcast x => do
-      let (xs, st) ← operandExprs rec binds asIs lits 0 [.arr x] st
-      pure (lhs, st.record lhs (.call (npf "broadcast_to") (xs ++ [shapeTuple shape]) []))
-    | .logicalNot _ => .refuse "NotImplementedError(LogicalNotOp)"
-    | .reduce op x axes => do
-      let c ← Gen.ofOption "operand is not a binding" ((binds.find? (·.1 == x)).map (·.2))
-      let (nm, st) ← rec c st
-      let ndim := (g.get c).shape.length
+      .ok (.stmt true [] fun _ => rhs)
+  | .binary op x1 x2 =>
+    (match arithOp op with
+     | some pop =>
+       let isDiv := op == .truediv
+       let form : Nat → ScalarInfo → Gen ScalarForm := fun k i =>
+         arithForm dt isDiv (if k = 0 then Operand.isArr' x2 else Operand.isArr' x1) i
+       (slotsOf binds form lits 0 [x1, x2]).bind fun sl =>
+         .ok (.stmt true (slotKids sl) fun ns =>
+           match fillSlots sl ns with
+           | [a, b] => .bin pop a b
+           | _ => .name "?")
+     | none =>
+       let fname := match op with
+         | .cmp c => some (cmpCall c)
+         | .logicalOr => some "logical_or"
+         | .logicalAnd => some "logical_and"
+         | _ => none
+       match fname with
+       | some f =>
+         (slotsOf binds (fun _ i => .ok i.asIs) lits 0 [x1, x2]).bind fun sl =>
+           .ok (.stmt true (slotKids sl) fun ns => .call (npf f) (fillSlots sl ns) [])
+       | none => .refuse "NotImplementedError(binary_op)")
+  | .call f args =>
+    (slotsOf binds (fun _ i => .ok i.asIs) lits 0 args).bind fun sl =>
+      .ok (.stmt true (slotKids sl) fun ns => .call (npf (c99NumpyName f)) (fillSlots sl ns) [])
+  | .zerosLike _ =>
+    .ok (.stmt true [] fun _ =>
+      .call (npf "zeros") [.tuple (shape.map fun d => .num (toString d) (.i (d : Nat)))] [dtypeKw dt])
+  | .where_ c t el =>
+    (slotsOf binds (fun _ i => .ok i.asIs) lits 0 [c, t, el]).bind fun sl =>
+      .ok (.stmt true (slotKids sl) fun ns => .call (npf "where") (fillSlots sl ns) [])
+  | .broadcast x =>
+    (slotsOf binds (fun _ i => .ok i.asIs) lits 0 [.arr x]).bind fun sl =>
+      .ok (.stmt true (slotKids sl) fun ns =>
+        .call (npf "broadcast_to") (fillSlots sl ns ++ [shapeTuple shape]) [])
+  | .logicalNot _ => .refuse "NotImplementedError(LogicalNotOp)"
+  | .reduce op x axes =>
+    (Gen.ofOption "operand is not a binding" ((binds.find? (·.1 == x)).map (·.2))).bind fun c =>
+      let ndim := (childShape c).length
       let dims := axes.map (·.1)
-      let rhs :=
+      .ok (.stmt true [c] fun ns =>
+        let nm := ns.headD "?"
         if (List.range ndim).all dims.contains then
           .call (npf (redName op)) [.name nm] []
         else
           match dims with
           | [d] => .call (npf (redName op)) [.name nm] [("axis", intConst (d : Nat))]
           | _ =>
-            let sorted := (dims.toArray.qsort (· < ·)).toList
-            .call (npf (redName op)) [.name nm] [("axis", .tuple (sorted.map fun d => intConst (d : Nat)))]
-      pure (lhs, st.record lhs rhs)
+            .call (npf (redName op)) [.name nm]
+              [("axis", .tuple ((sortBy (fun a b => decide (a < b)) dims).map fun d => intConst (d : Nat)))])
+
+/-- static shapes of the bindings -/
+def bindShapes (g : PGraph) : List (String × Nat) → Gen (List (String × Shape))
+  | [] => .ok []
+  | (n, c) :: r =>
+    match staticShape (g.get c).shape with
+    | none => .unmodelled "symbolic binding shape"
+    | some s => (bindShapes g r).bind fun rs => .ok ((n, s) :: rs)
+
+/-- `map_index_lambda` -/
+def ilPlan (g : PGraph) (dt : DType) (shape : Shape) (e : SExpr) (binds : List (String × Nat))
+    (lits : List ScalarInfo) : Gen Plan :=
+  (bindShapes g binds).bind fun bs =>
+    match Raise.raise e shape bs with
+    | none => .refuse "UnknownIndexLambdaExpr"
+    | some hlo => hloPlan (fun c => (g.get c).shape) dt shape binds lits hlo
+
+/-- index entries as slots: array indices are children -/
+inductive ISlot where
+  | kid (c : Nat)
+  | lit (i : PyIdx)
+
+def islotKids : List ISlot → List Nat
+  | [] => []
+  | .kid c :: r => c :: islotKids r
+  | .lit _ :: r => islotKids r
+
+def fillISlots : List ISlot → List String → List PyIdx
+  | [], _ => []
+  | .kid _ :: r, n :: ns => .expr (.name n) :: fillISlots r ns
+  | .kid _ :: r, [] => .expr (.name "?") :: fillISlots r []
+  | .lit i :: r, ns => i :: fillISlots r ns
+
+def idxSlots : List PIdx → Shape → List ISlot
+  | [], _ => []
+  | ix :: r, ds =>
+    (match ix with
+     | .int k => .lit (.expr (intConst k))
+     | .slice s => .lit (sliceExpr s (ds.headD 0))
+     | .arr c => .kid c) :: idxSlots r ds.tail
+
+/-- the plan for node `i` -/
+def plan (g : PGraph) (i : Nat) : Gen Plan :=
+  let nd := g.get i
+  match nd.node with
+  | .placeholder name => .ok (.input (some name))
+  | .dataWrapper name => .ok (.input name)
+  | .sizeParam _ => .refuse "NotImplementedError(SizeParam)"
+  | .indexLambda dt e binds lits =>
+    (match staticShape nd.shape with
+     | some shape => ilPlan g dt shape e binds lits
+     | none => .unmodelled "symbolic index-lambda shape")
+  | .roll c shift axis =>
+    .ok (.stmt true [c] fun ns =>
+      .call (npf "roll") [.name (ns.headD "?")] [("shift", intConst shift), ("axis", intConst axis)])
+  | .perm c p =>
+    .ok (.stmt true [c] fun ns =>
+      if p == (List.range p.length).reverse then .attr (.name (ns.headD "?")) "T"
+      else .call (npf "transpose") [.name (ns.headD "?")]
+        [("axes", .list (p.map fun a => intConst (a : Nat)))])
+  | .reshape c order =>
+    (match staticShape nd.shape with
+     | none => .refuse "NotImplementedError(Non-integral reshapes)"
+     | some shape =>
+       .ok (.stmt true [c] fun ns =>
+         .call (npf "reshape") [.name (ns.headD "?"), shapeTuple shape] [("order", .str order)]))
+  | .stack cs axis =>
+    .ok (.stmt false cs fun ns => .call (npf "stack") [.list (ns.map .name)] [("axis", intConst axis)])
+  | .concat cs axis =>
+    .ok (.stmt false cs fun ns =>
+      .call (npf "concatenate") [.list (ns.map .name)] [("axis", intConst axis)])
+  | .index c ix =>
+    (match staticShape (g.get c).shape with
+     | none => .unmodelled "symbolic shape under an index"
+     | some cshape =>
+       let k := emittedIdxCount ix cshape
+       if k = 0 then .ok (.pass c)
+       else
+         let sl := idxSlots (ix.take k) cshape
+         .ok (.stmt true (c :: islotKids sl) fun ns =>
+           .subscript (.name (ns.headD "?")) (fillISlots sl ns.tail)))
+  | .einsum descr cs =>
+    .ok (.stmt true cs fun ns =>
+      .call (npf "einsum") (.str (einsumSpec descr nd.shape.length) :: ns.map .name) [])
+  | .alias c => .ok (.pass c)
+  | .dict items =>
+    -- `sorted(expr._data.items())`: by key, each value stays with its key
+    let sorted := sortBy (fun a b => decide (a.1 < b.1)) items
+    .ok (.stmt true (sorted.map (·.2)) fun ns => .dict ((sorted.map (·.1)).zip (ns.map .name)))
+  | .refused kind => .refuse ("NotImplementedError(" ++ kind ++ ")")
+  | .other kind => .unmodelled ("node kind " ++ kind)
+
+/-! ## the traversal -/
+
+def lookupMemo (m : List (Nat × String)) (i : Nat) : Option String :=
+  (m.find? (·.1 == i)).map (·.2)
 
 def recAll (rec : Nat → St → Gen (String × St)) : List Nat → St → Gen (List String × St)
   | [], st => .ok ([], st)
-  | c :: cs, st => do
-    let (n, st) ← rec c st
-    let (r, st) ← recAll rec cs st
-    pure (n :: r, st)
+  | c :: cs, st =>
+    (rec c st).bind fun r =>
+      (recAll rec cs r.2).bind fun rs => .ok (r.1 :: rs.1, rs.2)
 
-def recIdxs (rec : Nat → St → Gen (String × St)) : List PIdx → Shape → St → Gen (List PyIdx × St)
-  | [], _, st => .ok ([], st)
-  | ix :: r, ds, st =>
-    let d := ds.headD 0
-    match ix with
-    | .int k => do
-      let (rs, st) ← recIdxs rec r ds.tail st
-      pure (.expr (intConst k) :: rs, st)
-    | .slice s => do
-      let (rs, st) ← recIdxs rec r ds.tail st
-      pure (sliceExpr s d :: rs, st)
-    | .arr c => do
-      let (n, st) ← rec c st
-      let (rs, st) ← recIdxs rec r ds.tail st
-      pure (.expr (.name n) :: rs, st)
+def St.memoize (st : St) (i : Nat) (n : String) : St := { st with memo := (i, n) :: st.memo }
 
 /-- `NumpyCodegenMapper.rec` on node `i` (fuel-indexed; `fuel = i + 1` suffices on a heap with
     children below parents) -/
@@ -432,78 +539,21 @@ def emitNode (g : PGraph) : Nat → Nat → St → Gen (String × St)
     match lookupMemo st.memo i with
     | some n => .ok (n, st)
     | none =>
-      let rec' := emitNode g fuel
-      let nd := g.get i
-      let done : String × St → Gen (String × St) := fun (n, st) =>
-        .ok (n, { st with memo := (i, n) :: st.memo })
-      match nd.node with
-      | .placeholder name => done (name, { st with args := name :: st.args })
-      | .dataWrapper name =>
-        (match name with
-         | some n => done (n, { st with args := n :: st.args })
-         | none => do
-           let (n, st) ← st.fresh "_pt_data"
-           done (n, { st with args := n :: st.args }))
-      | .sizeParam _ => .refuse "NotImplementedError(SizeParam)"
-      | .indexLambda dt e binds lits =>
-        (match staticShape nd.shape with
-         | some shape => (emitIndexLambda rec' g dt shape e binds lits st).bind done
-         | none => .unmodelled "symbolic index-lambda shape")
-      | .roll c shift axis => do
-        let (lhs, st) ← st.fresh "_pt_tmp"
-        let (n, st) ← rec' c st
-        done (lhs, st.record lhs
-          (.call (npf "roll") [.name n] [("shift", intConst shift), ("axis", intConst axis)]))
-      | .perm c p => do
-        let (lhs, st) ← st.fresh "_pt_tmp"
-        let (n, st) ← rec' c st
-        let rhs : PyExpr :=
-          if p == (List.range p.length).reverse then .attr (.name n) "T"
-          else .call (npf "transpose") [.name n] [("axes", .list (p.map fun a => intConst (a : Nat)))]
-        done (lhs, st.record lhs rhs)
-      | .reshape c order => do
-        let (lhs, st) ← st.fresh "_pt_tmp"
-        match staticShape nd.shape with
-        | none => .refuse "NotImplementedError(Non-integral reshapes)"
-        | some shape =>
-          let (n, st) ← rec' c st
-          done (lhs, st.record lhs
-            (.call (npf "reshape") [.name n, shapeTuple shape] [("order", .str order)]))
-      | .stack cs axis => do
-        let (ns, st) ← recAll rec' cs st
-        let (lhs, st) ← st.fresh "_pt_tmp"
-        done (lhs, st.record lhs
-          (.call (npf "stack") [.list (ns.map .name)] [("axis", intConst axis)]))
-      | .concat cs axis => do
-        let (ns, st) ← recAll rec' cs st
-        let (lhs, st) ← st.fresh "_pt_tmp"
-        done (lhs, st.record lhs
-          (.call (npf "concatenate") [.list (ns.map .name)] [("axis", intConst axis)]))
-      | .index c ix =>
-        (match staticShape (g.get c).shape with
-         | none => .unmodelled "symbolic shape under an index"
-         | some cshape =>
-           let k := emittedIdxCount ix cshape
-           if k = 0 then (rec' c st).bind done
-           else do
-             let (lhs, st) ← st.fresh "_pt_tmp"
-             let (n, st) ← rec' c st
-             let (ixs, st) ← recIdxs rec' (ix.take k) cshape st
-             done (lhs, st.record lhs (.subscript (.name n) ixs)))
-      | .einsum descr cs => do
-        let (lhs, st) ← st.fresh "_pt_tmp"
-        let (ns, st) ← recAll rec' cs st
-        done (lhs, st.record lhs
-          (.call (npf "einsum") (.str (einsumSpec descr nd.shape.length) :: ns.map .name) []))
-      | .alias c => (rec' c st).bind done
-      | .dict items => do
-        let (lhs, st) ← st.fresh "_pt_tmp"
-        -- `sorted(expr._data.items())`: by key, each value stays with its key
-        let sorted := (items.toArray.qsort fun a b => a.1 < b.1).toList
-        let (ns, st) ← recAll rec' (sorted.map (·.2)) st
-        done (lhs, st.record lhs (.dict ((sorted.map (·.1)).zip (ns.map .name))))
-      | .refused kind => .refuse ("NotImplementedError(" ++ kind ++ ")")
-      | .other kind => .unmodelled ("node kind " ++ kind)
+      (plan g i).bind fun pl =>
+      match pl with
+      | .input (some name) => .ok (name, ({ st with args := name :: st.args }).memoize i name)
+      | .input none =>
+        (st.fresh "_pt_data").bind fun r =>
+          .ok (r.1, ({ r.2 with args := r.1 :: r.2.args }).memoize i r.1)
+      | .pass c => (emitNode g fuel c st).bind fun r => .ok (r.1, r.2.memoize i r.1)
+      | .stmt true kids mk =>
+        (st.fresh "_pt_tmp").bind fun l =>
+          (recAll (emitNode g fuel) kids l.2).bind fun r =>
+            .ok (l.1, (r.2.record l.1 (mk r.1)).memoize i l.1)
+      | .stmt false kids mk =>
+        (recAll (emitNode g fuel) kids st).bind fun r =>
+          (r.2.fresh "_pt_tmp").bind fun l =>
+            .ok (l.1, (l.2.record l.1 (mk r.1)).memoize i l.1)
 
 structure Program where
   /-- keyword-only arguments of the generated function, sorted -/
@@ -517,7 +567,7 @@ def generate (g : PGraph) (root : Nat) (existing : List String) : Gen Program :=
   let st0 : St := { ng := { existing := existing, counters := [] }, memo := [], lines := [], args := [] }
   match emitNode g (root + 1) root st0 with
   | .ok (res, st) =>
-    .ok { args := (st.args.eraseDups.toArray.qsort (· < ·)).toList,
+    .ok { args := sortBy (fun a b => decide (a < b)) st.args.eraseDups,
           body := st.lines.reverse ++ [.ret res] }
   | .refuse w => .refuse w
   | .unmodelled w => .unmodelled w
